@@ -17,6 +17,15 @@ pub fn bytes_at(addr: usize, n: usize) -> Vec<u8> {
     crate::maps::read_vec(addr, n).unwrap_or_default()
 }
 
+/// the bytes at `addr` compared with an image taken earlier, over the length of THAT image (a mapping that has
+/// appeared behind the end of an arena since must not make a 16-byte image look different from a 32-byte one)
+pub fn img_differs(addr: usize, old: &[u8]) -> bool {
+    match crate::maps::read_vec(addr, old.len()) {
+        Some(v) => v != old,
+        None => true,
+    }
+}
+
 /// up to 32 bytes at `addr` (fewer when the mapping ends earlier)
 pub fn img(addr: usize) -> Vec<u8> {
     for n in [32usize, 24, 16, 8, 6, 5] {
